@@ -365,7 +365,8 @@ def check(prog, run):
     _err = [p for p in ae.params if p != prog.self_name(ae)][0]
     ok = bool(_exits) and all(
         kind != "raise" and sum(1 for c in env.get(_bx.CALLS, ()) if isinstance(c.func, ast.Attribute) and c.func.attr == "append"
-                                and ast.unparse(c.func.value) == "self._errors" and c.args and ast.unparse(c.args[0]) == _err) == 1
+                                and ast.unparse(_bx.path_subst(c.func.value, _bx.path_env(env.get(_bx.STMTS, ()))) ) == "self._errors"
+                                and c.args and ast.unparse(c.args[0]) == _err) == 1
         for kind, st, env in _exits)
     r.instance("add_error appends the error to self._errors exactly once on each of its %d executions: %s" % (len(_exits), ok))
     if not ok:
